@@ -24,7 +24,8 @@ var ErrDone = fmt.Errorf("%T instance can't be reused after %[1]T.Wait()", (*Pro
 // Progress represents a container that renders one or more progress bars.
 type Progress struct {
 	uwg          *sync.WaitGroup
-	pwg, bwg     sync.WaitGroup
+	pwg          sync.WaitGroup
+	bwg          barWaitGroup
 	operateState chan func(*pState)
 	interceptIO  chan func(io.Writer)
 	done         <-chan struct{}
